@@ -1061,6 +1061,57 @@ fn cmd_selftest() -> i32 {
             }
         }
     }
+    // the reference model of the error decoder: it must find every word within the radius (else it silently loses
+    // premises), and whatever it returns must be within the radius of its input and have vanishing syndromes
+    {
+        use datamatrix::errorcode::encode_error;
+        let mut rng = rng::Rng::new(0x5e1f7e57);
+        let mut found = 0u64;
+        let mut tried = 0u64;
+        for s in catalogue::SIZES.iter() {
+            if !ctx.gf_ok[s.idx] {
+                continue;
+            }
+            for rep in 0..6usize {
+                let data: Vec<u8> = (0..s.n_data).map(|_| rng.below(256) as u8).collect();
+                let mut word = data.clone();
+                word.extend_from_slice(&encode_error(&data, s.size));
+                for b in 0..s.blocks {
+                    let pos = s.block_positions(b);
+                    let sent: Vec<u8> = pos.iter().map(|p| word[*p]).collect();
+                    // rep 0..3: exactly t errors; 4: 1 error; 5: t + 1 errors (must not "restore" the sent word)
+                    let w = match rep { 0..=3 => s.t(), 4 => 1, _ => s.t() + 1 };
+                    let mut rx = sent.clone();
+                    for i in rng.sample_distinct(rx.len(), w.min(rx.len())) {
+                        rx[i] ^= rng.nonzero_byte();
+                    }
+                    tried += 1;
+                    match ctx.gf.bd_decode_block(&rx, s.k) {
+                        Some(fixed) => {
+                            let d = fixed.iter().zip(rx.iter()).filter(|(a, b)| a != b).count();
+                            if d > s.t() || ctx.gf.syndromes(&fixed, s.k).iter().any(|x| *x != 0) {
+                                println!("selftest: reference decoder returned a word outside the radius or a non-codeword ({} block {})", s.name, b);
+                                bad += 1;
+                            }
+                            if w <= s.t() {
+                                if fixed == sent { found += 1; } else {
+                                    println!("selftest: reference decoder restored a different word within the radius ({} block {})", s.name, b);
+                                    bad += 1;
+                                }
+                            }
+                        }
+                        None => {
+                            if w <= s.t() {
+                                println!("selftest: reference decoder missed {} error(s) in {} block {}", w, s.name, b);
+                                bad += 1;
+                            }
+                        }
+                    }
+                }
+            }
+        }
+        println!("selftest: reference decoder restored {} of {} blocks tried ({} with t + 1 errors)", found, tried, tried / 6);
+    }
     println!("selftest: {} problem(s)", bad);
     if bad > 0 {
         2
